@@ -451,6 +451,7 @@ int reb_integrator_bs_step(struct reb_simulation* r, double dt){
     }
 
     const int forward = (dt >= 0.);
+    const double dt_attempted = fabs(dt);
 
     // iterate over several substep sizes
     int k = -1;
@@ -705,6 +706,12 @@ int reb_integrator_bs_step(struct reb_simulation* r, double dt){
     ri_bs->dt_proposed = dt;
 
     if (reject) {
+        if (ri_bs->min_dt !=0.0 && dt_attempted <= ri_bs->min_dt){
+            // The rejected step was already as small as allowed. It would be retried
+            // unchanged forever (order and stepsize do not increase after a rejection).
+            reb_simulation_error(r,"Step rejected at the minimal stepsize min_dt. Tolerances cannot be met without a smaller min_dt.");
+            r->status = REB_STATUS_GENERIC_ERROR;
+        }
         ri_bs->previous_rejected = 1;
     } else {
         ri_bs->previous_rejected = 0;
